@@ -209,10 +209,12 @@ def CActValid {α : Type} (n : Nat) : CAct α → Prop
 def CEvOk {α : Type} (n : Nat) (c : List α) : CEv α → Prop
   | .made b => b = !c.isEmpty
   | .elem e idx => idx < n ∧ c[idx]? = some e
+  | .raw _ => True
 
 /-- the index of an observation (factory observations have none) -/
 def CEv.idxLt {α : Type} (n : Nat) : CEv α → Prop
   | .made _ => True
   | .elem _ idx => idx < n
+  | .raw _ => True
 
 end Fcppt.C20
